@@ -28,6 +28,7 @@ fn flag(args: &[String], name: &str) -> bool {
 fn init_sim() {
     seams::install_panic_hook();
     swc_vue_jsx_visitor::verif_hooks::install(seams::yield_point);
+    verif_sync::install(seams::yield_point);
     if !seams::getrandom_seam_effective() {
         println!("HARNESS-ERROR: the getrandom seam does not control std's hash keys in this build");
         std::process::exit(2);
